@@ -143,7 +143,20 @@ def main(argv=None):
             elif c.status == 'unknown':
                 undecided.append((r, f'{ob}: solver returned unknown'))
             elif c.status == 'refuted' and '/invariant-' in cname:
-                # a loop invariant that does not go through is a failed proof, not a violation
+                # a loop invariant that does not go through is a failed proof, not a violation -- unless the
+                # unit's native replay exhibits a failing input for the property on this very tree
+                if r.unit.replay is not None:
+                    key = ('inv-native', r.unit.name)
+                    if key not in _NATIVE_CACHE:
+                        mod, fn = r.unit.replay.split(':')
+                        _NATIVE_CACHE[key] = run_native(mod, fn, dict(model={}, clause=cname, note='loop invariant not inductive'))
+                    rr = _NATIVE_CACHE[key]
+                    if rr.get('reproduced'):
+                        for cand in c.refuted[:1]:
+                            cand['native'] = rr
+                            cand['pre_reproduced'] = True
+                        violations.append((r, cname, c))
+                        continue
                 undecided.append((r, f'{ob}: candidate loop invariant not inductive'))
             elif c.status == 'refuted':
                 k = next((k for k in known if k.get('obligation') == ob), None)
@@ -185,6 +198,9 @@ def main(argv=None):
         for cand in c.refuted[:4]:
             if r.unit.replay is None:
                 break
+            if cand.get('pre_reproduced'):
+                reproduced, chosen = cand['native'], cand
+                break
             mod, fn = r.unit.replay.split(':')
             payload = dict(model=verify.jsonable(cand['model']), clause=cname, note=cand.get('note'))
             rr = run_native(mod, fn, payload)
@@ -220,6 +236,9 @@ def main(argv=None):
     print(f'{prop}: obligations={obligations} discharged={discharged} known-findings={len(known_hits)} '
           f'violations={len(violations)} undecided={len(undecided)} wall={time.time() - t0:.1f}s exit={exit_code}')
     return exit_code
+
+
+_NATIVE_CACHE = {}
 
 
 def _one(args):
